@@ -355,6 +355,7 @@ class Piece:
     tags: tuple = ()
     tkind: str = ""      # token kind for src
     dead: bool = False   # removed by a rule
+    mark: str = ""       # 'await': the (dead) `.` of a removed `.await` — cancel points are located by this mark, not by index
 
 
 def pieces_from(toks, a, b):
@@ -532,6 +533,7 @@ def n1_async(pieces, file, applied):
             if j >= 0 and pieces[j].tkind == "ws" and "\n" in pieces[j].text:
                 pieces[j].dead = True
             applied.add("N1", file, p.line, ".await removed (cancel point)")
+            pieces[si[k - 1]].mark = "await"
             awaits.append(si[k - 1])
     return awaits
 
@@ -656,6 +658,105 @@ def apply_rewrite(pieces, rule, pat_s, rep_s, count, file, applied):
         newp = [Piece(t.text, "rw", line, rule=rule, tkind=t.kind) for t in lex(rep)]
         pieces[si[k]:si[k] + 1] = newp
         applied.add(rule, file, line, f"{pat_s} => {rep_s}")
+
+
+def n29_select_biased(pieces, file, applied):
+    """N29: `futures_util::select_biased! { P1 = E1.fuse() => B1, P2 = E2.fuse() => B2 ... }`  ->
+    `match select_biased_choice() { 0 => { let P1 = E1; B1 } 1 => { let P2 = E2; B2 } .. _ => { let Pn = En; Bn } }`.
+    The macro polls the futures in order and runs the arm of the first one that is ready, dropping the others; what
+    is kept is "exactly one arm runs, with the output of its own future, after that future completed"; which arm
+    is an arbitrary choice (the template's `select_biased_choice` leaf has no postcondition).  Lost: the bias order,
+    and that the losing futures are dropped (cancel safety of those futures is C07's business / assumed)."""
+    ms = find_pattern(pieces, "futures_util::select_biased! { $BLOCKARMS }")
+    if len(ms) != 1:
+        raise ExtractError(f"N29: select_biased! occurs {len(ms)} times, expected 1")
+    (k, e, caps, si) = ms[0]
+    a, b = caps["BLOCKARMS"]            # positions in si of the arms
+    line0 = pieces[si[k]].line
+    arms = []
+    j = a
+    while j < b:
+        # pattern: up to `=` at depth 0
+        d = 0
+        p0 = j
+        while j < b:
+            t = pieces[si[j]]
+            if t.tkind == "punct" and t.text in OPEN:
+                d += 1
+            elif t.tkind == "punct" and t.text in CLOSE:
+                d -= 1
+            elif d == 0 and t.text == "=":
+                break
+            elif d == 0 and t.text == "=>":
+                raise ExtractError(f"{file}:{t.line}: N29: `complete`/`default` arms are not supported")
+            j += 1
+        if j >= b:
+            raise ExtractError("N29: arm without `=`")
+        eq = j
+        j += 1
+        d = 0
+        while j < b:
+            t = pieces[si[j]]
+            if t.tkind == "punct" and t.text in OPEN:
+                d += 1
+            elif t.tkind == "punct" and t.text in CLOSE:
+                d -= 1
+            elif d == 0 and t.text == "=>":
+                break
+            j += 1
+        if j >= b:
+            raise ExtractError("N29: arm without `=>`")
+        arrow = j
+        if [pieces[si[x]].text for x in range(arrow - 4, arrow)] != [".", "fuse", "(", ")"]:
+            raise ExtractError(f"{file}:{pieces[si[arrow]].line}: N29: arm future does not end in `.fuse()`")
+        j += 1
+        if pieces[si[j]].text == "{":
+            close = _pmatch(pieces, si, j, None)
+            end = close + 1
+        else:
+            d = 0
+            end = j
+            while end < b:
+                t = pieces[si[end]]
+                if t.tkind == "punct" and t.text in OPEN:
+                    d += 1
+                elif t.tkind == "punct" and t.text in CLOSE:
+                    d -= 1
+                elif d == 0 and t.text == ",":
+                    break
+                end += 1
+        comma = end if end < b and pieces[si[end]].text == "," else None
+        arms.append((p0, eq, arrow, end, comma))
+        j = end + (1 if comma is not None else 0)
+    if len(arms) < 2:
+        raise ExtractError("N29: fewer than two arms")
+    edits = []   # (piece index, 'before'|'replace'|'after', text)
+    for n, (p0, eq, arrow, end, comma) in enumerate(arms):
+        label = "_" if n == len(arms) - 1 else str(n)
+        edits.append((si[p0], "before", f"{label} => {{ let "))
+        for x in range(arrow - 4, arrow):
+            pieces[si[x]].dead = True
+        edits.append((si[arrow], "replace", ";"))
+        if comma is not None:
+            pieces[si[comma]].dead = True
+        edits.append((si[end - 1], "after", " }"))
+        applied.add("N29", file, pieces[si[p0]].line, f"select_biased! arm {n}: `P = F.fuse() => B` -> `{label} => {{ let P = F; B }}`")
+    head = list(range(si[k], si[k + 4]))      # futures_util :: select_biased !
+    for n, (idx, how, text) in enumerate(sorted(edits, key=lambda x: (-x[0], 0 if x[1] == "after" else 1))):
+        ln = pieces[idx].line
+        newp = [Piece(t.text, "rw", ln, rule="N29", tkind=t.kind) for t in lex(text)]
+        if how == "before":
+            pieces[idx:idx] = newp
+        elif how == "after":
+            pieces[idx + 1:idx + 1] = newp
+        else:
+            pieces[idx].dead = True
+            pieces[idx + 1:idx + 1] = newp
+    for x in head:
+        pieces[x].dead = True
+    newp = [Piece(t.text, "rw", line0, rule="N29", tkind=t.kind) for t in lex("match select_biased_choice() ")]
+    pieces[head[0]:head[0]] = newp
+    applied.add("N29", file, line0, "futures_util::select_biased! { arms } -> match select_biased_choice() { arms }")
 
 
 def n12_break_value(pieces, name, file, applied):
@@ -1102,6 +1203,9 @@ class Generator:
                         elif d == "n17":
                             opts["n17"] = True
                             cur = None
+                        elif d == "n29":
+                            opts["n29"] = True
+                            cur = None
                         elif d == "trusted":
                             opts["trusted"] = True
                             cur = None
@@ -1192,6 +1296,8 @@ class Generator:
             n2_logging(pieces, file, self.applied)
         if opts.get("n19"):
             n19_byte_strings(pieces, file, self.applied)
+        if opts.get("n29"):
+            n29_select_biased(pieces, file, self.applied)
         for (rule, pat, rep, count) in opts["rewrites"]:
             apply_rewrite(pieces, rule, pat, rep, count, file, self.applied)
         if opts.get("n5"):
@@ -1319,6 +1425,8 @@ class Generator:
                     cancel_block = bk
                 else:
                     raise ExtractError(f"{iid}: unknown block {w}")
+            # rewrites / N29 / N17 insert pieces: locate the cancel points by their marks, not by the indices N1 saw
+            awaits = [i for i, pc in enumerate(pieces) if pc.mark == "await"]
             if awaits and not opts.get("trusted"):
                 if cancel_block is None:
                     raise ExtractError(f"{iid}: function has {len(awaits)} await(s) but no cancel block "
